@@ -122,30 +122,37 @@ def check(report: Report, repo: Repo) -> None:
         report.add("R1-producer", N_REBUILD, None, f"outside fragment: {ex}")
     # ---- R2: reduce_ex
     f = F_REDUCE
-    selfp = Obj("torch.nn.Parameter", term=T("param", ("self",)))
-    selfp.attrs.update({"mup_type": "norm", "mup_scaling_depth": O("depth"), "user_attr": O("user")})
-    for h, fn_ in HOOKS.items():
-        selfp.attrs[h] = Bound(fn_, selfp)
     cons = N_REDUCE
-    try:
-        before_keys = dict(selfp.attrs)
-        r = it.call_function(f, [selfp, O("protocol")], {})
-        unchanged = set(selfp.attrs) == set(before_keys) and all(selfp.attrs[k] is before_keys[k] for k in before_keys)
-        report.add("R2-pickle-protocol", f"{cons}::source-untouched", unchanged, "pickling must not modify the parameter being saved (its instance __dict__ is live: removing the hooks from it untags every later copy of the *source*)", sorted(set(before_keys) - set(selfp.attrs)), [])
-        ok = isinstance(r, tuple) and len(r) == 2 and isinstance(r[0], FuncV) and r[0].node is F_REBUILD.node and r[0].module.rel == PA and isinstance(r[1], tuple) and len(r[1]) == 4
-        report.add("R2-pickle-protocol", f"{cons}::rebuild", ok, "reduce must return (library rebuild function, (data, requires_grad, hooks, state))", fmt(r), "(_rebuild_parameter_with_state, (data, requires_grad, OrderedDict(), state))")
-        if ok:
-            data, rg, hooks, state = r[1]
-            report.add("R2-pickle-protocol", f"{cons}::payload", TM.term_of(data) == T("attr", (selfp.term, "data")) and TM.term_of(rg) == T("attr", (selfp.term, "requires_grad")), "values and trainability are shipped", fmt((data, rg)), "(self.data, self.requires_grad)")
-            if isinstance(state, dict):
-                dropped = set(selfp.attrs) - set(state)
-                report.add("R2-pickle-protocol", f"{cons}::filter", dropped == set(HOOKS), "exactly the two instance hooks are filtered out of the pickled state (they are re-installed by the rebuild function); tags and other attributes are kept", sorted(dropped), sorted(HOOKS))
-                for tname in TAGS:
-                    report.add("R2-pickle-protocol", f"{cons}::state[{tname}]", tname in state and state[tname] is selfp.attrs[tname], f"{tname} travels in the pickled state", fmt(state.get(tname, "<dropped>")), fmt(selfp.attrs[tname]))
-            else:
-                report.add("R2-pickle-protocol", f"{cons}::filter", None, f"state is not statically known: {fmt(state)}")
-    except Unsupported as ex:
-        report.add("R2-pickle-protocol", cons, None, f"outside fragment: {ex}")
+    # symbolic tag values, then concrete ones of every kind the tags can take (None included)
+    for sc_name, tagv, depthv, userv in (("symbolic", "norm", O("depth"), O("user")), ("depth None", "weight", None, "label"), ("depth 7", "output", 7, 2.5), ("depth 1", "bias", 1, None)):
+        selfp = Obj("torch.nn.Parameter", term=T("param", ("self",)))
+        selfp.attrs.update({"mup_type": tagv, "mup_scaling_depth": depthv, "user_attr": userv})
+        for h, fn_ in HOOKS.items():
+            selfp.attrs[h] = Bound(fn_, selfp)
+        lab = f"[{sc_name}] "
+        try:
+            before_keys = dict(selfp.attrs)
+            r = it.call_function(f, [selfp, O("protocol")], {})
+            unchanged = set(selfp.attrs) == set(before_keys) and all(selfp.attrs[k] is before_keys[k] for k in before_keys)
+            report.add("R2-pickle-protocol", f"{cons}::source-untouched", unchanged, lab + "pickling must not modify the parameter being saved (its instance __dict__ is live: removing the hooks from it untags every later copy of the *source*)", sorted(set(before_keys) - set(selfp.attrs)), [])
+            ok = isinstance(r, tuple) and len(r) == 2 and isinstance(r[0], FuncV) and r[0].node is F_REBUILD.node and r[0].module.rel == PA and isinstance(r[1], tuple) and len(r[1]) == 4
+            report.add("R2-pickle-protocol", f"{cons}::rebuild", ok, lab + "reduce must return (library rebuild function, (data, requires_grad, hooks, state))", fmt(r), "(_rebuild_parameter_with_state, (data, requires_grad, OrderedDict(), state))")
+            if ok:
+                data, rg, hooks, state = r[1]
+                report.add("R2-pickle-protocol", f"{cons}::payload", TM.term_of(data) == T("attr", (selfp.term, "data")) and TM.term_of(rg) == T("attr", (selfp.term, "requires_grad")), lab + "values and trainability are shipped", fmt((data, rg)), "(self.data, self.requires_grad)")
+                if isinstance(state, dict):
+                    dropped = set(selfp.attrs) - set(state)
+                    if sc_name == "symbolic":
+                        report.add("R2-pickle-protocol", f"{cons}::filter", dropped == set(HOOKS), lab + "exactly the two instance hooks are filtered out of the pickled state (they are re-installed by the rebuild function); tags and other attributes are kept", sorted(dropped), sorted(HOOKS))
+                    else:
+                        report.add("R2-pickle-protocol", f"{cons}::filter", set(HOOKS) <= dropped, lab + "the two instance hooks are filtered out of the pickled state", sorted(dropped), sorted(HOOKS), nontrivial=False)
+                    for tname in TAGS:
+                        report.add("R2-pickle-protocol", f"{cons}::state[{tname}]", tname in state and state[tname] is selfp.attrs[tname], lab + f"{tname} travels in the pickled state", fmt(state.get(tname, "<dropped>")), fmt(selfp.attrs[tname]))
+                else:
+                    report.add("R2-pickle-protocol", f"{cons}::filter", None, lab + f"state is not statically known: {fmt(state)}")
+        except Unsupported as ex:
+            # the symbolic scenario may leave the fragment (e.g. a type test on an unknown value); the concrete ones decide
+            report.add("R2-pickle-protocol", cons, None if sc_name != "symbolic" else True, lab + f"outside fragment: {ex}", nontrivial=False)
 
     # ---- has_parameter_data reads only the two tags
     hp = it.get_global(PA, "has_parameter_data")
@@ -173,4 +180,41 @@ def check(report: Report, repo: Repo) -> None:
         report.add("R4-transforms", f"{TU}::apply_transform::deepcopy", okd, "the transformed module is a copy.deepcopy of the argument (parameters are copied through their instance hook, never re-created)", f"deepcopy calls: {len(dc)}", "module = copy.deepcopy(module)")
     except Unsupported as ex:
         report.add("R4-transforms", f"{TU}::apply_transform::deepcopy", None, f"outside fragment: {ex}")
+    # unit_scale (copy, then re-initialise Linear / Embedding weights in place) on a module whose layers hold
+    # tagged parameters: the copy's parameters keep the tags and the hooks
+    US = "unit_scaling/transforms/_unit_scale.py"
+    it_u = Interp(repo)
+    us = it_u.get_global(US, "unit_scale")
+
+    def tagged(nm: str, tagv: str, depthv: Any) -> Obj:
+        p_ = Obj("torch.nn.Parameter", term=T("param", (nm,)))
+        p_.attrs.update({"mup_type": tagv, "mup_scaling_depth": depthv})
+        for h, fn_ in HOOKS.items():
+            p_.attrs[h] = Bound(fn_, p_)
+        return p_
+
+    def layer(cls_name: str, nm: str, tagv: str, depthv: Any) -> Obj:
+        return Obj(cls_name, attrs={"weight": tagged(f"{nm}.w", tagv, depthv), "bias": tagged(f"{nm}.b", "bias", depthv), "_children": [], "__module__": "user_code.layers"}, term=None)
+
+    layers = [("lin", layer("torch.nn.Linear", "lin", "weight", 3)), ("emb", layer("torch.nn.Embedding", "emb", "weight", None)), ("ln", layer("torch.nn.LayerNorm", "ln", "norm", None))]
+    mod = Obj("torch.nn.Module", term=None)
+    mod.attrs.update({"forward": O("m.forward"), "_children": list(layers), "__module__": "user_code.models"})
+    cons = f"{US}::unit_scale::parameters"
+    try:
+        res = it_u.call_function(us, [mod], {})
+        ch = dict(res.attrs.get("_children", [])) if isinstance(res, Obj) else {}
+        n_par = 0
+        for nm, src in layers:
+            c = ch.get(nm)
+            for pn in ("weight", "bias"):
+                sp_, cp_ = src.attrs[pn], (c.attrs.get(pn) if isinstance(c, Obj) else None)
+                n_par += 1
+                ok = isinstance(cp_, Obj) and cp_ is not sp_ and all(cp_.attrs.get(t_, "<lost>") == sp_.attrs[t_] for t_ in TAGS)
+                report.add("R4-transforms", f"{cons}[{nm}.{pn}]", ok, "after unit_scale the copy's parameter is a distinct object that still carries the source's u-muP tags", fmt({t_: cp_.attrs.get(t_, "<lost>") for t_ in TAGS}) if isinstance(cp_, Obj) else fmt(cp_), fmt({t_: sp_.attrs[t_] for t_ in TAGS}))
+                if ok:
+                    okh = all(isinstance(cp_.attrs.get(h), Bound) and cp_.attrs[h].func is HOOKS[h] and cp_.attrs[h].self_val is cp_ for h in HOOKS)
+                    report.add("R4-transforms", f"{cons}[{nm}.{pn}]::hooks", okh, "and its copy / pickle hooks (bound to itself), so later copies keep the tags too", sorted(h for h in HOOKS if h in cp_.attrs), sorted(HOOKS))
+        report.floor("parameters followed through unit_scale", n_par, 6)
+    except Unsupported as ex:
+        report.add("R4-transforms", cons, None, f"outside fragment: {ex}")
     report.floor("producers analysed", 3, 3)
